@@ -87,7 +87,8 @@ def verify_function(c, variant=None, vname=''):
                 check_post(ip, c, a, old, kind, res)
             # vacuity guard: the assumptions of a completed path must be satisfiable, i.e. the
             # obligation `False` must NOT be provable here
-            st.obls.append(Obligation('canary', list(st.pc) + list(st.hyps), BoolVal(False), ('canary',), st.cur_line))
+            st.obls.append(Obligation('canary', [f for f in list(st.pc) + list(st.hyps) if f.get_id() not in st.goal_ids],
+                                        BoolVal(False), ('canary',), st.cur_line))
             return PathResult(kind, res)
         except PathEnd as pe:
             return PathResult('cut', pe.reason)
